@@ -3,8 +3,8 @@ package mon
 import (
 	"crypto/sha256"
 
-	"google.golang.org/protobuf/proto"
 	"fmt"
+	"google.golang.org/protobuf/proto"
 	"strings"
 	"time"
 
@@ -187,8 +187,8 @@ func init() {
 		Level: "exploration",
 		Rule: "static cases: a feed with >= 5 services, shapes and trips is parsed 8 (16 thorough) times from write-protected pages, plus an A,B,A history; realtime cases: three feeds A,B,C whose map-built outputs all have >= 5 elements (id-bearing vehicles, routes derived from non-identifying alert descriptors, elevator groups, NYCT trips) are parsed under each of the 30 extension configurations (nil, NoExtension, 4 nycttrips, 24 nyctalerts): repeated with fresh options, in a history A,B,A,C,A,B,C,A with ONE reused options/extension object, and under equivalent options (nil extension vs NoExtension; nil zone vs time.UTC vs loaded UTC); every ordered canonical dump must equal the fresh-options baseline of the same bytes; the whole case list runs in 2 (3 thorough) separate processes whose per-case digests must agree (thorough: one of them built with go1.26.8, which has a different map implementation); input bytes are hashed before/after and live in PROT_READ pages; " +
 			"distinct_nontrivial counts distinct (input kind, configuration, sizes of the map-built collections) signatures",
-		Cases:    func(tier string) int { a, b := c06Counts(tier); return a + b },
-		Run:      runC06,
+		Cases: func(tier string) int { a, b := c06Counts(tier); return a + b },
+		Run:   runC06,
 		Replicas: func(tier string) int {
 			if tier == "thorough" {
 				return 3
@@ -310,6 +310,10 @@ func c06Static(c *core.Ctx) {
 			before := sha256.Sum256(bufs[i].B)
 			s, err, pan := safeParseStatic(bufs[i].B, opts)
 			c.Eval(1)
+			if strings.HasPrefix(pan, roFaultMark) {
+				c.Violation("C06|input-modified|static", "ParseStatic wrote to its (read-only mapped) input bytes", map[string]any{"panic_and_stack": pan})
+				return
+			}
 			if pan != "" {
 				c.Skip("ParseStatic-panicked(C05)")
 				return
@@ -454,7 +458,9 @@ func c06Realtime(c *core.Ctx) {
 		{"time.UTC vs LoadLocation(UTC)", func() *gtfs.ParseRealtimeOptions { return &gtfs.ParseRealtimeOptions{Timezone: time.UTC} }, func() *gtfs.ParseRealtimeOptions {
 			return &gtfs.ParseRealtimeOptions{Timezone: mustZone("UTC")}
 		}},
-		{"two loads of America/New_York", func() *gtfs.ParseRealtimeOptions { return &gtfs.ParseRealtimeOptions{Timezone: mustZone("America/New_York")} }, func() *gtfs.ParseRealtimeOptions {
+		{"two loads of America/New_York", func() *gtfs.ParseRealtimeOptions {
+			return &gtfs.ParseRealtimeOptions{Timezone: mustZone("America/New_York")}
+		}, func() *gtfs.ParseRealtimeOptions {
 			return &gtfs.ParseRealtimeOptions{Timezone: mustZone("America/New_York")}
 		}},
 	} {
